@@ -133,22 +133,22 @@ theorem or_app_nil : ∀ (n : OrList), oapp n .nil = n
   | .cons x y t => by simp [oapp, or_app_nil t]
 
 theorem run_nots : ∀ (nots : CritList) (x : Flat) (n : CritList) (o : OrList),
-    run (notItems nots) (.mk x n o) = .mk x (napp n (canonNots nots)) o
-  | .nil, x, n, o => by simp [run, notItems, canonNots, app_nil]
+    run (notItems nots) (.mk x n o) = .mk x (napp n (delivNots nots)) o
+  | .nil, x, n, o => by simp [run, notItems, delivNots, app_nil]
   | .cons c t, x, n, o => by
-    have ih := run_nots t x (n.snoc (canonCrit c)) o
+    have ih := run_nots t x (n.snoc (delivCrit c)) o
     simp only [run, notItems, List.foldl_cons, Crit.flat, Crit.nots, Crit.ors] at ih ⊢
     rw [ih]
-    simp [canonNots, snoc_app]
+    simp [delivNots, snoc_app]
 
 theorem run_ors : ∀ (ors : OrList) (x : Flat) (n : CritList) (o : OrList),
-    run (orItems ors) (.mk x n o) = .mk x n (oapp o (canonOrs ors))
-  | .nil, x, n, o => by simp [run, orItems, canonOrs, or_app_nil]
+    run (orItems ors) (.mk x n o) = .mk x n (oapp o (delivOrs ors))
+  | .nil, x, n, o => by simp [run, orItems, delivOrs, or_app_nil]
   | .cons a b t, x, n, o => by
-    have ih := run_ors t x n (o.snoc (canonCrit a) (canonCrit b))
+    have ih := run_ors t x n (o.snoc (delivCrit a) (delivCrit b))
     simp only [run, orItems, List.foldl_cons, Crit.flat, Crit.nots, Crit.ors] at ih ⊢
     rw [ih]
-    simp [canonOrs, or_snoc_app]
+    simp [delivOrs, or_snoc_app]
 
 theorem map_canonNSet (l : List NSet) (h : ∀ s ∈ l, SetNF s) : l.map canonNSet = l := by
   induction l with
@@ -157,13 +157,13 @@ theorem map_canonNSet (l : List NSet) (h : ∀ s ∈ l, SetNF s) : l.map canonNS
     simp only [List.map_cons, canonNSet_nf a (h a (by simp)), ih (fun s hs => h s (by simp [hs]))]
 
 theorem fold_seq (l : List NSet) (x : Flat) :
-    l.foldl (fun x a => ({ x with seqSets := x.seqSets ++ [a] } : Flat)) x = { x with seqSets := x.seqSets ++ l } := by
+    l.foldl (fun x a => ({ x with seqSets := x.seqSets ++ [delivN a] } : Flat)) x = { x with seqSets := x.seqSets ++ l.map delivN } := by
   induction l generalizing x with
   | nil => simp
   | cons a t ih => simp [ih]
 
 theorem fold_uid (l : List NSet) (x : Flat) :
-    l.foldl (fun x a => ({ x with uidSets := x.uidSets ++ [a] } : Flat)) x = { x with uidSets := x.uidSets ++ l } := by
+    l.foldl (fun x a => ({ x with uidSets := x.uidSets ++ [delivN a] } : Flat)) x = { x with uidSets := x.uidSets ++ l.map delivN } := by
   induction l generalizing x with
   | nil => simp
   | cons a t ih => simp [ih]
@@ -201,16 +201,14 @@ theorem fold_notFlags (l : List Str) (x : Flat) :
 
 /-- the keys of the flat part, of the NOTs and of the ORs, run from the empty criteria -/
 theorem run_items (f : Flat) (nots : CritList) (ors : OrList) (hf : FlatOK f) :
-    run (flatItems f ++ notItems nots ++ orItems ors) Crit.empty = canonCrit (.mk f nots ors) := by
-  have hseq := map_canonNSet f.seqSets (fun s hs => (hf.seq s hs).2.1)
-  have huid := map_canonNSet f.uidSets (fun s hs => (hf.uid s hs).2)
+    run (flatItems f ++ notItems nots ++ orItems ors) Crit.empty = delivCrit (.mk f nots ors) := by
   have hl := hf.larger.1
   have hs := hf.smaller.1
   obtain ⟨sq, uq, si, be, ss, sb, hd, bd, tx, fl, nf, lg, sm⟩ := f
-  simp only at hseq huid hl hs
+  simp only at hl hs
   simp only [flatItems, run_append, Crit.empty]
-  rw [run_map_addF sq seqItem (fun s x => { x with seqSets := x.seqSets ++ [s] }) (fun _ => rfl), fold_seq]
-  rw [run_map_addF uq uidItem (fun s x => { x with uidSets := x.uidSets ++ [s] }) (fun _ => rfl), fold_uid]
+  rw [run_map_addF sq seqItem (fun s x => { x with seqSets := x.seqSets ++ [delivN s] }) (fun _ => rfl), fold_seq]
+  rw [run_map_addF uq uidItem (fun s x => { x with uidSets := x.uidSets ++ [delivN s] }) (fun _ => rfl), fold_uid]
   rw [run_recvDates _ _ _ _ _ rfl rfl]
   rw [run_sentDates _ _ _ _ _ rfl rfl]
   rw [run_map_addF hd headerItem (fun kv x => { x with header := x.header ++ [(canonHeaderKey kv.1, kv.2)] }) headerItem_eff, fold_header]
@@ -219,7 +217,7 @@ theorem run_items (f : Flat) (nots : CritList) (ors : OrList) (hf : FlatOK f) :
   rw [run_map_addF fl flagItem (fun s x => { x with flags := x.flags ++ [canonFlag s] }) flagItem_eff, fold_flags]
   rw [run_map_addF nf notFlagItem (fun s x => { x with notFlags := x.notFlags ++ [canonFlag s] }) notFlagItem_eff, fold_notFlags]
   rw [run_larger _ _ _ _ rfl hl, run_smaller _ _ _ _ rfl hs, run_nots, run_ors]
-  simp [canonCrit, canonFlat, napp, oapp, hseq, huid]
+  simp [delivCrit, delivFlat, canonFlat, napp, oapp]
 
 theorem composes (c : Crit) (h : CritOK c) : Composes c := by
   cases c with
